@@ -40,13 +40,22 @@ CLASSES = [
     lambda n: KeyError("name not found: " + n),
     lambda n: ssl.SSLError(1, "injected SSL error at " + n),
     lambda n: RuntimeError("injected fault at " + n),
+    # errors a caller might be tempted to retry: they persist (every later call of the same step fails the same way)
+    lambda n: BlockingIOError(errno.EAGAIN, "Resource temporarily unavailable: " + n),
+    lambda n: InterruptedError(errno.EINTR, "Interrupted system call: " + n),
 ]
+STICKY = (6, 7)
+STUCK = [None]
 
 
 def rec(name, *args):
     idx = len(TRACE)
     TRACE.append([name] + [str(a) for a in args])
     if FAULT_AT[0] is not None and idx == FAULT_AT[0]:
+        if FAULT_CLASS[0] in STICKY:
+            STUCK[0] = name
+        raise CLASSES[FAULT_CLASS[0]](name)
+    if STUCK[0] == name:
         raise CLASSES[FAULT_CLASS[0]](name)
 
 
@@ -109,6 +118,7 @@ def run(tls, chroot, setuid, setgid, fault, tmp, fclass=0, start_cwd=None):
 
 def _run(tls, chroot, setuid, setgid, fault, tmp, fclass=0):
     del TRACE[:]
+    STUCK[0] = None
     FAULT_AT[0] = fault
     FAULT_CLASS[0] = fclass
     root = os.path.join(tmp, "root")
